@@ -191,6 +191,28 @@ func (s *tscen) run() core.Result {
 	if why := sameJSON(a, b); why != "" {
 		return fail("json-differs", "t2j(j2t(j)) does not denote j's value (%s): j=%s, j'=%s", why, strclip(j, 300), strclip(j2, 300))
 	}
+	// the same pair reached through SetOptions on converters built with the complementary options
+	flip := func(o conv.Options) conv.Options {
+		o.Int642String, o.NoBase64Binary, o.EnableValueMapping, o.String2Int64, o.ByteAsUint8 = !o.Int642String, !o.NoBase64Binary, !o.EnableValueMapping, !o.String2Int64, !o.ByteAsUint8
+		return o
+	}
+	tj2 := t2j.NewBinaryConv(flip(s.pair.t2j))
+	tj2.SetOptions(s.pair.t2j)
+	jtc2 := j2t.NewBinaryConv(flip(s.pair.j2t))
+	jtc2.SetOptions(s.pair.j2t)
+	var j3, m3 []byte
+	var e3, e4 error
+	if pi := core.Catch(func() {
+		if j3, e3 = tj2.Do(ctx, dresp, msg); e3 == nil {
+			m3, e4 = jtc2.Do(ctx, dreq, j3)
+		}
+	}); pi != nil {
+		return fail("set-options|panic@"+pi.Site+":"+core.PanicClass(pi.Val), "round trip on converters configured by SetOptions panics: %.300s", pi.Val)
+	}
+	r.Count("compositions", 1)
+	if e3 != nil || e4 != nil || !bytes.Equal(m3, msg) {
+		return fail("set-options|message-differs", "converters built with other options and switched by SetOptions: json %s (err %v), back %s (err %v)", strclip(j3, 300), e3, hexclip(m3, 200), e4)
+	}
 	return r
 }
 
